@@ -42,9 +42,23 @@ Proof. intros H. exact (slots_injective_of_distinct cells (k_edges k) (k_nnodes 
    row-sorted, and (facet slot, side) compositions are exactly the edge slots  ==>  f2e numbers mesh.edges *)
 Lemma tet_bnd_all_pairs : tet_bnd = [[0; 1]; [1; 2]; [0; 2]].
 Proof. reflexivity. Qed.
-Lemma tet_facets_have_three_vertices : Forall (fun fs => length fs = 3) tet_facets.
-Proof. repeat constructor. Qed.
+Lemma tet_facets_have_three_vertices :
+  Forall (fun fs => length fs = 3 /\ NoDup fs /\ forall i, In i fs -> i < tet_nnodes) tet_facets.
+Proof.
+  unfold tet_facets, tet_nnodes. repeat (apply Forall_cons || apply Forall_nil);
+    (split; [reflexivity | split; [repeat constructor; simpl; intuition discriminate | intros i Hi; simpl in Hi; intuition lia]]).
+Qed.
+Lemma tet_edges_distinct_vertices : Forall (fun es => NoDup es /\ forall i, In i es -> i < tet_nnodes) tet_edges.
+Proof.
+  unfold tet_edges, tet_nnodes. repeat (apply Forall_cons || apply Forall_nil);
+    (split; [repeat constructor; simpl; intuition discriminate | intros i Hi; simpl in Hi; intuition lia]).
+Qed.
 Lemma tet_sorted_facets : tet_sortf = true.
 Proof. reflexivity. Qed.
 Lemma tet_compose_ok : compose_ok tet_facets tet_bnd tet_edges = true.
 Proof. vm_compute. reflexivity. Qed.
+
+(* the two triangular facet slots of the wedge are a triple of distinct local vertices padded with one of them *)
+Lemma wedge_triangular_slots_are_padded :
+  nth 3 wedge_facets [] = [0; 1; 2] ++ [0] /\ nth 4 wedge_facets [] = [3; 4; 5] ++ [3].
+Proof. split; reflexivity. Qed.
